@@ -1456,6 +1456,9 @@ func (g *Generator) generateEmailValidator(gf *protogen.GeneratedFile) {
 	gf.P("if len(parts) != 2 || parts[0] == \"\" || parts[1] == \"\" {")
 	gf.P(`return fmt.Errorf("invalid email format")`)
 	gf.P("}")
+	gf.P("if strings.ContainsAny(value, \" \\t\") {")
+	gf.P(`return fmt.Errorf("invalid email format: contains whitespace")`)
+	gf.P("}")
 	gf.P()
 	gf.P("return nil")
 	gf.P("}")
